@@ -93,3 +93,8 @@ chk('C18',
     'Trusted: ref/cyl.py; weight sum / moments to the 8 digits of the tabulated disk rules; rays lying in a surface are don\'t-care; Monte-Carlo kind never used.',
     'explicit enumeration of geometry grid on the real Cylinder / compute_transmission_map; 50-digit reference model',
     'DESIGN.md section 6 C18')
+chk('C10',
+    'Full product of frequency ratios {1/4..8} x both senses x slit-set menu on a 1/360-turn lattice (1..6 slits, TDC-spanning, negative begin, narrow, wide) x beam positions x phases (incl. multiple turns) x angle/frequency units x npulses 1..4, plus acceptance/rejection families for frequency ratios and overlapping slit sets: every reported (open, close) pair compared with an exact-rational simulation of the rotating disk (open < close, open throughout, closed just outside, duration, no duplicates, nothing missing in the covered span), directly and via Chopper.from_disk_chopper.',
+    'Trusted: ref/disk.py (Fractions, NXdisk_chopper definitions); touching slits are don\'t-care; the uuid scratch dimension label of DiskChopper is pinned from outside during enumeration (scipp label-table limit) after a differential check that results are identical.',
+    'explicit enumeration of chopper configurations on the real DiskChopper/Chopper; exact-rational rotating-disk model',
+    'DESIGN.md section 6 C10')
